@@ -164,7 +164,7 @@ def riscv_csr(obj, imm, rs1, rd):
 
 
 @ispec(
-    "32<[ 0000 .pred(4) .succ(4) 00000 000 00000 0001111 ]",
+    "32<[ .fm(4) .pred(4) .succ(4) .rs1(5) 000 .rd(5) 0001111 ]",
     mnemonic="FENCE",
     type=type_system,
 )
